@@ -289,10 +289,18 @@ Definition parse_start_obs (l : list tok) : option start_obs :=
   | _ => None
   end.
 
+(* attribute values as the exporter printed them (no range restriction on observations) *)
+Fixpoint parse_zs_any (l : list tok) : option (list Z) :=
+  match l with
+  | [] => Some []
+  | TZ v :: l' => option_map (cons v) (parse_zs_any l')
+  | _ => None
+  end.
+
 Definition parse_x (l : list tok) : option xrec :=
   match l with
   | tn :: TB tid :: TB sid :: TB psid :: TZ f :: TZ cf :: tr :: TB ts :: tc :: vals =>
-      match parse_nat tn, parse_bool tr, parse_nat tc, parse_zs vals with
+      match parse_nat tn, parse_bool tr, parse_nat tc, parse_zs_any vals with
       | Some n, Some r, Some cnt, Some vs => if Nat.eqb cnt (length vs) then Some (mk_x n tid sid psid f cf r ts vs) else None
       | _, _, _, _ => None
       end
